@@ -1,5 +1,73 @@
-(* Props/C04.v — property C04 (XMI half). *)
-From Cassis Require Import Base Lex LexProofs.
-Theorem C04_tokens_roundtrip : forall l, Forall tok_ok l -> split_ws (join l) = l.
-Proof. exact split_join. Qed.
-Print Assumptions C04_tokens_roundtrip.
+(* Props/C04.v — property C04, XMI half: written documents are complete, closed under reachability and faithful.
+   Only property theorems (closed by `exact`), Print Assumptions and non-vacuity examples.
+   Float printing / parsing are external (Python repr / float): the theorems quantify over any pair fmt / parse with the
+   contract  parse (fmt x) = Some x  and  fmt x is one blank-free token  (checked by the oracle on every case). *)
+From Cassis Require Import Base Offsets.
+From Cassis Require Import Heap Schema Canon Lex LexProofs Reach XmiDoc Xmi XmiProofs CorrC04 XmiExample.
+Open Scope Z_scope.
+
+(* Faithful: for every schema and every CAS, if the writer succeeds and the CAS after the traversal is well-formed for the
+   structures that are written (wf_xmib: boolean, counted by the harness on every case), then the document, read by the
+   independent denotation of the XMI format, is exactly the canonical content of the CAS (types by namespace, every
+   feature value, element order of collections, offsets in code points, sofa data, view membership), up to ""/null inside
+   string arrays and lists. *)
+Theorem C04_denote_save_xmi :
+  forall (fmt : flt -> string) (parse : string -> option flt),
+  (forall x, parse (fmt x) = Some x) -> (forall x, tok_ok (fmt x)) ->
+  forall s c d c',
+  save_xmi fmt s c = Ok (d, c') ->
+  (forall all, written s c = Ok (c', all) -> wf_xmib s c' all = true) ->
+  denote_xmi parse s d = (do x <- canon_xmi s c ;; Ok (norm_xmi s x)).
+Proof. exact denote_save_xmi. Qed.
+Print Assumptions C04_denote_save_xmi.
+
+(* The same for any set of structures to be written: the writer's document for (c, all) denotes canon_of c all. *)
+Theorem C04_denote_written :
+  forall (fmt : flt -> string) (parse : string -> option flt),
+  (forall x, parse (fmt x) = Some x) -> (forall x, tok_ok (fmt x)) ->
+  forall s c all d, wf_xmib s c all = true -> write_doc fmt s c all = Ok d ->
+  denote_xmi parse s d = (do x <- canon_of s c (sort_ids all) ;; Ok (norm_xmi s x)).
+Proof. exact denote_written. Qed.
+Print Assumptions C04_denote_written.
+
+(* Namespaces: in every reachable state of the prefix allocator the prefix recorded for a URL is bound to that URL, so every
+   element is created in the namespace of its own package — also for packages ending in the same segment or in
+   cas / xmi / tcas / type0 (distinct URLs never share a prefix). *)
+Theorem C04_prefix_alloc_injective :
+  forall st n u st', ns_inv st -> alloc_ns st n = Ok (u, st') -> u = fst (ns_of_type n) /\ ns_inv st'.
+Proof. exact prefix_alloc_injective. Qed.
+Print Assumptions C04_prefix_alloc_injective.
+
+(* Each element written for a feature structure decodes to that structure's canonical content (per element form of
+   "present, faithful"): ordinary structures with all eleven writer branches, and arrays stored as elements of their own. *)
+Theorem C04_dec_enc_fs :
+  forall (fmt : flt -> string) (parse : string -> option flt),
+  (forall x, parse (fmt x) = Some x) -> (forall x, tok_ok (fmt x)) ->
+  forall s c ids, memZ 0 ids = false -> (forall vn so, sofa_of_view c vn = Some so -> s_xid so <> 0) ->
+  forall g io f e, sofas_track g -> NoDup (map (fun v => s_xid (v_sofa v)) (c_views c)) ->
+  hget (c_heap c) (snd io) = Some f -> fs_okb s c ids io = true ->
+  enc_fs fmt s c (fst (ns_of_type (o_type f))) (fst io) f = Ok e ->
+  dec_fs parse s (map g (c_views c)) e = (do x <- canon_fs s c io ;; Ok (fst x, norm_cfs s (snd x))).
+Proof. exact dec_enc_fs. Qed.
+Print Assumptions C04_dec_enc_fs.
+
+(* NOT PROVED for all inputs (evaluated on every generated case instead, on the implementation's document and on the
+   model's — check_doc_ok in CorrC04.v):
+     doc_ok_save_xmi (doc_ids_distinct + doc_refs_resolve):
+       save_xmi fmt s c = Ok (d, c') -> (forall all, written s c = Ok (c', all) -> wf_xmib s c' all = true) ->
+       doc_ok_xmi parse s d = true.
+   wf_xmib carries the set-level facts about `all` (ids distinct and apart from the sofa ids and 0, every reference /
+   element / member / sofa array is in `all`) as boolean premises; that they follow from the traversal is Reach's
+   find_all_each_once / find_all_closed (ReachProofs, other builder).  What is missing here is the bookkeeping that the
+   canonical content is total (canon_of = Ok) and that its references are those checked by ref_okb. *)
+
+(* non-vacuity: the example CAS (two views, astral text, cycle, inline FSArray with a null element, shared FSArray, empty
+   inline StringList, referenced-only annotation, colliding package suffixes) satisfies the premises; the model writes the
+   document cassis wrote; the document is closed and denotes the observed content *)
+Example C04_premises_hold :
+  (match written ex_schema ex_cas with Ok ca => wf_xmib ex_schema (fst ca) (snd ca) | _ => false end) = true
+  /\ (match save_xmi (tab_fmt ex_ftab) ex_schema ex_cas with Ok (d, _) => xdoc_perm_eqb d ex_doc | _ => false end) = true
+  /\ doc_ok_xmi (tab_parse ex_ftab) ex_schema ex_doc = true
+  /\ (match denote_xmi (tab_parse ex_ftab) ex_schema ex_doc, canon_xmi ex_schema ex_cas with
+      | Ok x, Ok y => ccas_eqb x (norm_xmi ex_schema y) && ccas_eqb y ex_canon | _, _ => false end) = true.
+Proof. vm_compute. repeat split; reflexivity. Qed.
